@@ -191,7 +191,7 @@ fn gen_taxa(rng: &mut Rng, n: usize) -> Vec<String> {
 }
 
 fn roundtrip(rng: &mut Rng, q: &mut Q, rep: &mut Report) {
-    let n = match rng.below(10) { 0 => 1, 1 => 2, _ => rng.range(1, 25) };
+    let n = match rng.below(12) { 0 => 1, 1 => 2, 2 => 0, _ => rng.range(1, 25) };
     let taxa = gen_taxa(rng, n);
     let kind = match rng.below(3) { 0 => LenKind::Dyadic, 1 => LenKind::Decimal, _ => LenKind::Wild };
     let f32mode = rng.chance(1, 3);
@@ -212,6 +212,9 @@ fn roundtrip(rng: &mut Rng, q: &mut Q, rep: &mut Report) {
              format!("ok {} | {}", enc_taxa(&taxa), cells64.iter().map(|v| canon_f64(*v)).collect::<Vec<_>>().join(" ")))
         };
         rep.case(&case, n >= 2);
+        if n == 0 {
+            rep.count("roundtrip:empty-matrix");
+        }
         let Ok(text) = text else {
             rep.oracle("no-panic", "to_phylip", &case, "panic");
             continue;
